@@ -776,6 +776,21 @@ package main
                                      (callresult "io/fs.FileInfo.IsDir" 0 0))))
   (ensures never-fewer (forall ((p String)) (! (>= (select hook.started p) (select (old hook.started) p)) :pattern ((select hook.started p)))))
   (ensures covers-notifications (= hk.uncovered (old hk.uncovered)))
+  ; "every eligible hook is started": a round is skipped only when the hooks directory cannot be opened or inspected, is not a
+  ; directory, or is world-writable; otherwise every eligible file the directory listing returned has been started
+  (ensures always-tries (called "os.Open" 0))
+  (ensures inspects-what-it-opened (=> (= (callresult "os.Open" 0 1) nil) (called "(*os.File).Stat" 0)))
+  (ensures every-eligible-hook-is-started
+    (=> (and (called "os.Open" 0) (= (callresult "os.Open" 0 1) nil) (called "(*os.File).Stat" 0) (= (callresult "(*os.File).Stat" 0 1) nil)
+             (fi_isdir (callresult "(*os.File).Stat" 0 0)) (= (band1 (fi_mode (callresult "(*os.File).Stat" 0 0)) 2) 0))
+        (and (called "(*os.File).Readdir" 0)
+             (forall ((j Int))
+               (! (=> (and (<= (off (callresult "(*os.File).Readdir" 0 0)) j)
+                           (< j (+ (off (callresult "(*os.File).Readdir" 0 0)) (len (callresult "(*os.File).Readdir" 0 0))))
+                           (hookeligible (fi_name (select (elemarr (callresult "(*os.File).Readdir" 0 0)) j)) (fi_mode (select (elemarr (callresult "(*os.File).Readdir" 0 0)) j))))
+                      (> (select hook.started (pjoin (. h dir) (pathclean (str.++ "/" (fi_name (select (elemarr (callresult "(*os.File).Readdir" 0 0)) j))))))
+                         (select (old hook.started) (pjoin (. h dir) (pathclean (str.++ "/" (fi_name (select (elemarr (callresult "(*os.File).Readdir" 0 0)) j))))))))
+                  :pattern ((select (elemarr (callresult "(*os.File).Readdir" 0 0)) j)))))))
   (loop 0
     (invariant index (and (<= -1 (local rangeindex)) (<= (local rangeindex) (- (len (local files)) 1))))
     (invariant never-fewer (forall ((p String)) (! (>= (select hook.started p) (select (old hook.started) p)) :pattern ((select hook.started p)))))
